@@ -21,21 +21,38 @@ IsFull(l, s, r) == l # UndL /\ s # None /\ r # None
 
 (* The most specific matching key, in the order the property fixes:        *)
 (* (l,r) or (l,s), then l; for und: (s,r), then s, or r alone.             *)
-(* `fb` adds the UTS #35 fallbacks an implementation MAY also use when the *)
-(* cascade above finds nothing: und_s_r / und_s / und_r for an unknown      *)
-(* language, und_r after an unknown script, and the bare "und" entry.       *)
+(* `fb` is the set of OPTIONAL UTS #35 fallbacks an implementation also    *)
+(* uses when the cascade above finds nothing (property C06: "where the     *)
+(* library finds no entry but a fallback would, either answer is           *)
+(* accepted"); each is independently optional:                             *)
+(*   "uscript"     und_script_region / und_script for a language that has   *)
+(*                 no entry of its own                                      *)
+(*   "uregion"     und_region after a script that has no entry              *)
+(*   "ulangregion" und_region for a language that has no entry of its own   *)
+(*                 (no script given)                                        *)
+(*   "bare"        the bare "und" entry for the input und                   *)
+(*   "bareAny"     the bare "und" entry as the last resort for any input    *)
+(* {} is the cascade the property fixes (and the library's today).          *)
+FbRules == {"uscript", "uregion", "ulangregion", "bare", "bareAny"}
+FbNone == {}
+FbAll == FbRules
+FbConfigs == SUBSET FbRules
 Candidates(l, s, r, fb) ==
     (IF l # UndL
        THEN (IF r # None THEN << <<l, None, r>> >> ELSE <<>>)
             \o (IF s # None THEN << <<l, s, None>> >> ELSE <<>>)
             \o << <<l, None, None>> >>
        ELSE <<>>)
-    \o (IF l = UndL \/ fb
+    \o (IF l = UndL \/ "uscript" \in fb
           THEN (IF s # None /\ r # None THEN << <<UndL, s, r>> >> ELSE <<>>)
                \o (IF s # None THEN << <<UndL, s, None>> >> ELSE <<>>)
-               \o (IF r # None /\ (s = None \/ fb) THEN << <<UndL, None, r>> >> ELSE <<>>)
           ELSE <<>>)
-    \o (IF fb THEN << <<UndL, None, None>> >> ELSE <<>>)
+    \o (IF r # None /\ \/ (l = UndL /\ s = None)
+                        \/ (l = UndL /\ s # None /\ "uregion" \in fb)
+                        \/ (l # UndL /\ s = None /\ "ulangregion" \in fb)
+                        \/ (l # UndL /\ s # None /\ "uscript" \in fb /\ "uregion" \in fb)
+          THEN << <<UndL, None, r>> >> ELSE <<>>)
+    \o (IF (l = UndL /\ "bare" \in fb) \/ "bareAny" \in fb THEN << <<UndL, None, None>> >> ELSE <<>>)
 
 FirstHit(T, cands) ==
     LET hits == { i \in 1..Len(cands) : Has(T, cands[i]) } IN
@@ -47,7 +64,7 @@ MaximizeF(T, l, s, r, fb) ==
     ELSE LET c == Candidates(l, s, r, fb)  h == FirstHit(T, c) IN
          IF h = 0 THEN <<FALSE, <<l, s, r>>>>
          ELSE <<TRUE, Override(T[c[h]], l, s, r)>>
-Maximize(T, l, s, r) == MaximizeF(T, l, s, r, FALSE)
+Maximize(T, l, s, r) == MaximizeF(T, l, s, r, FbNone)
 
 MinimizeF(T, l, s, r, fb) ==
     LET m0 == MaximizeF(T, l, s, r, fb) IN
@@ -58,11 +75,22 @@ MinimizeF(T, l, s, r, fb) ==
             ELSE IF m[3] # None /\ try(m[1], None, m[3]) THEN <<TRUE, <<m[1], None, m[3]>>>>
             ELSE IF m[2] # None /\ try(m[1], m[2], None) THEN <<TRUE, <<m[1], m[2], None>>>>
             ELSE <<FALSE, <<l, s, r>>>>
-Minimize(T, l, s, r) == MinimizeF(T, l, s, r, FALSE)
+Minimize(T, l, s, r) == MinimizeF(T, l, s, r, FbNone)
 
 (* the answers property C06/C08 accept                                      *)
-AllowedMax(T, l, s, r) == { MaximizeF(T, l, s, r, FALSE), MaximizeF(T, l, s, r, TRUE) }
-AllowedMin(T, l, s, r) == { MinimizeF(T, l, s, r, FALSE), MinimizeF(T, l, s, r, TRUE) }
+(* Only some rules can matter for a given language: none when the language   *)
+(* has an entry of its own (its entry is found before any fallback, and the  *)
+(* trials of Minimize keep that language); for und the two und-rules; for a  *)
+(* language without an entry the four others ("uregion" after "uscript").    *)
+(* MC_Sweep checks AllowedMin = AllowedMinFull on the real table.            *)
+CfgsFor(T, l) ==
+    IF l # UndL /\ Has(T, <<l, None, None>>) THEN {FbNone}
+    ELSE IF l = UndL THEN SUBSET {"uregion", "bare"}
+    ELSE { c \in SUBSET {"uscript", "uregion", "ulangregion", "bareAny"} : "uregion" \in c => "uscript" \in c }
+AllowedMax(T, l, s, r) == { MaximizeF(T, l, s, r, fb) : fb \in CfgsFor(T, l) }
+AllowedMin(T, l, s, r) == { MinimizeF(T, l, s, r, fb) : fb \in CfgsFor(T, l) }
+AllowedMaxFull(T, l, s, r) == { MaximizeF(T, l, s, r, fb) : fb \in FbConfigs }
+AllowedMinFull(T, l, s, r) == { MinimizeF(T, l, s, r, fb) : fb \in FbConfigs }
 
 (* ----- the laws of C07 / C08, for one input ------------------------------ *)
 Count(t) == (IF t[2] # None THEN 1 ELSE 0) + (IF t[3] # None THEN 1 ELSE 0)
